@@ -273,8 +273,8 @@ EXTRA = {
     "C04": " Also: one step of 1e7 and steps of 1e3..1e6 at every nx (mesh ratios to 1e13; the fitted mesh constant carries a "
            "resolution estimate and the nominal nx^2 is used when it is noise), the scaled diffusivity comes from the fluid's public "
            "lookup, flat stored levels must not move, warnings are counted only if absent from the all-exact baseline, "
-           "module-level functools.partial aliases of the solvers are intercepted too, the two-phase class.",
-    "C05": " Also: M over 21 decades (1e-9 .. 1e12), round trip to 1e-6, partially explicit forecast_cum arguments, Bounds through zero.",
+           "module-level functools.partial aliases of the solvers are intercepted too (in every loaded bluebonnet module; lsqr / lsmr as well), the two-phase class, time grids that start at 1e3 / 1e6 / 1.7e9.",
+    "C05": " Also: M over 21 decades (1e-9 .. 1e12), round trip to 1e-6, partially explicit forecast_cum arguments, Bounds through zero, evenly spaced windows that start at 0.05 tau, all-zero production, bounds reassigned on the forecaster between two fits.",
     "C06": " Also: p_r down to 1e-12 (DAK) / 1e-8 (Hall-Yarbrough), a 40 000-point (thorough 200 000) irrational-offset "
            "Hall-Yarbrough lattice, wet and contaminated tables; root residual 1e-9.",
     "C07": " Also: constants that define a named correlation are held to 1e-9, rho_g B_g / gravity is one number over the whole gas "
@@ -282,11 +282,11 @@ EXTRA = {
     "C08": " Also: integer-typed tables, pandas Series and row-filtered frames as input, quadrature calls for neighbours that share "
            "(T, p, gravity) but not the pseudocritical point before each real call, each contaminant varied alone.",
     "C09": " Also: non-uniform pressure grids and frames with a non-default index, rescale rejections (outside the table, missing "
-           "column), any exception type counts as 'an error'.",
-    "C10": " The alphabet now has 12 (ideal: 8) letters plus setF/setP: grids A, A' (A stretched by 4 ppm), B (A's length and end "
+           "column), any exception type counts as 'an error', integer-typed whole-psi pressures through m_scaled_func.",
+    "C10": " The alphabet now has 15 (ideal: 11) letters plus setF/setP: grids A, A' (A stretched by 4 ppm), B (A's length and end "
            "points), C, D (to depletion), E (single entry), two scheduled runs, a simulate that is rejected for a wrong-length schedule "
-           "(must leave no trace), rf, rf(density), interpolator; also a two-object product exploration (same / mixed class, two "
-           "single-phase fluids), a 60-node 128-level configuration, every history up to depth 2/3 over {simA, simB, setF, setP, rf} in "
+           "(must leave no trace) and one rejected for a pressure far outside the table, resim (the stored time array passed back) and bufB (the stored array overwritten with grid B and passed again), rf, rf(density), interpolator; also a two-object product exploration (same / mixed class, two "
+           "single-phase fluids), a 60-node 128-level configuration, every history up to depth 2/3 over {simA, simB, setF, setP, rf, rf(density), interpolator} in "
            "fresh interpreters in several orders (process-global state), and full-edge conformance with the TLC-checked model.",
     "C11": " Also: Fluid.gas_FVF / gas_viscosity, unsorted arrays of 64 and 1000 pressures from 1 psia, one Fluid object whose "
            "pressure array is updated in place between calls.",
@@ -295,16 +295,16 @@ EXTRA = {
     "C13": " Also: default and keyword standard conditions, non-round T / API / gravity; if a parent cannot carry a dual number the "
            "reference falls back to Richardson finite differences (1e-7, nothing demanded next to a kink).",
     "C14": " Also: one bad record among a hundred, cancelling sums, residuals leaving 1e-9 .. 0.04 of mobile pore space, connate "
-           "water that is not a short decimal, the helper's rows fed back through relative_permeabilities.",
+           "water that is not a short decimal, the helper's rows fed back through relative_permeabilities, reversed / sub- / mixed batches (a record's values depend on that record alone).",
     "C15": " Also: initial pressure in the first / last cell and at the second / last node, mobilities of 1e-12, factors 1e-9 / 1e9, "
            "a span where no phase flows (exactly flat), the caller's table is not modified.",
     "C16": " Also: other saturations / array-valued Sw on the same PVT functions and the first call repeated, a family whose stored "
            "mass falls with pressure, from_table on sorted / filtered DataFrames.",
     "C17": " Also: a nearly uniform ('drift') grid and epoch-sized origins in the shift lattice, the interpolator on 1200-level runs "
            "into depletion / 1e-6 increments / no drawdown, a constant schedule at another value than the object's own (list, "
-           "integer and float arrays), a rejected schedule leaves the object unchanged.",
+           "integer and float arrays), a rejected schedule leaves the object unchanged, shifted pairs with stepped / build-up schedules, constant schedules on grids that do not start at zero, the interpolator after a build-up run.",
     "C18": " Also: the residual reported at the fitted parameters equals M x library forward model - production (recorder patched at "
-           "lmfit.Minimizer.__init__), near-equal tau / M / p_initial call pairs, a late build-up, index variants, NaN rates.",
+           "lmfit.Minimizer.__init__), near-equal tau / M / p_initial call pairs, a late build-up, index variants, NaN rates, a second fluid table at the same initial pressure, permuted production columns.",
     "C19": " Also: pressures 1 .. 19 000 psia, full 14 000-psia tables (default maximum), each contaminant varied alone in the "
            "histories, maxima just above a multiple of 10, normalised-looking fluid-type strings.",
     "C20": " Also: both entry points (transform, transform_non_affine) of the pair obtained from the Axes' own scale, the Axes' "
